@@ -36,6 +36,20 @@ fn main() {
             "W" => writer_cmd::run(&toks[1..]),
             "R" => reader_cmd::run_blocking(&toks[1..], false),
             "M" => reader_cmd::run_blocking(&toks[1..], true),
+            // the same as R on a thread with the stack a Rust main thread has by default (8 MiB), whatever RLIMIT_STACK the check runs with:
+            // recursion depth of the library is observable (a stack overflow aborts the process: CRASH)
+            "K" => {
+                let owned: Vec<String> = toks[1..].iter().map(|s| s.to_string()).collect();
+                std::thread::Builder::new()
+                    .stack_size(8 << 20)
+                    .spawn(move || {
+                        let r: Vec<&str> = owned.iter().map(|s| s.as_str()).collect();
+                        reader_cmd::run_blocking(&r, false)
+                    })
+                    .expect("spawn")
+                    .join()
+                    .unwrap_or_else(|_| "BADCASE harness-panic".to_string())
+            }
             "A" => reader_cmd::run_async(&toks[1..]),
             "X" => combo_cmd::run_x(&toks[1..]),
             "Y" => combo_cmd::run_y(&toks[1..]),
